@@ -6,7 +6,7 @@ from concurrent.futures import ThreadPoolExecutor
 import common
 
 CORPUS_SEED = 1
-CORPUS_N = 114
+CORPUS_N = 122
 
 HEX_OK = "4f6b28"      # Ok(
 HEX_ERR = "45727228"   # Err(
@@ -346,6 +346,16 @@ class EpisodeMonitor:
                         if stored_now and not oversize and not (before and key in before[0] and before[0][key][0] == o["ret"] and before[0][key][2] == after[0][key][2] and self.det):
                             self.fail("C20", f"{op}: the result stored by the resumed call is {after[0][key][2]} ms old right after the store (it inherited the birth time of an entry "
                                              f"stored for the same arguments while the call was suspended and will expire early)")
+                    # "if the call is resumed later it stores its result NORMALLY": an accepted result replaces whatever is held
+                    # under its key (last store wins, C01) - afterwards the key holds this call's value or, when the store's own
+                    # eviction / oversize rule removed it, nothing; never the value another call stored meanwhile
+                    if after is not None and o.get("ret") is not None:
+                        acc_ = (o["pred"][0][3] == "1") if (s["cache_if"] and o.get("pred")) else True
+                        if s["is_result"] and not s["cache_if"] and o["ret"].startswith(HEX_ERR):
+                            acc_ = False
+                        if acc_ and key in after[0] and after[0][key][0] != o["ret"]:
+                            self.fail("C20", f"{op}: the resumed call produced {o['ret'][:32]} and its result was accepted for caching, but the cache holds "
+                                             f"{after[0][key][0][:32]} under its key afterwards (the result of the resumed call was not stored normally)")
                     if before and after and key in before[0] and s["maxmem"] is None:
                         lost = [k for k in before[0] if k != key and k not in after[0]]
                         if lost:
